@@ -326,7 +326,11 @@ def make_group(rng, n=None, k=None):
         nested = ["eye", "left_eye", "left_eyebrow", "brow", "eyebrow", "e", "left", "left_eye_2"]
         names = [nested[j] for j in rng.permutation(len(nested))[:len(masks)]]
         masks = OrderedDict(zip(names, masks.values()))
-    A = gen.adjacency(n, gen.random_undirected_edges(rng, n), True)
+    E = gen.random_undirected_edges(rng, n)
+    if rng.random() < 0.4:
+        # a point joined to itself (face_lfpw_29 closes its one-point chin into such a loop): an edge like any other
+        E = E + [(int(v), int(v)) for v in rng.choice(n, int(rng.integers(1, 3)), replace=False)]
+    A = gen.adjacency(n, E, True)
     how = int(rng.integers(0, 3))
     if how == 0:
         return ms.LabelledPointUndirectedGraph(pts, A, masks)
@@ -495,9 +499,11 @@ def w_labellers(ctx, rng, i):
     if not np.array_equal(o2.points, op):
         ctx.fail("return_mapping_changes_the_result", cls=name, mech=kind)
     # wrong sizes are rejected
-    for M in (N - 1, N + 1, N + 7):
+    for M in (N - 1, N + 1, N + 7, 0, 1, 2 * N):
+        if M == N or M < 0 or (M == 0 and kind == "Labelled"):
+            continue
         try:
-            f(wrap(gen.points(rng, M, d, min_sep=0.001)))
+            f(wrap(gen.points(rng, M, d, min_sep=0.001)) if M else wrap(np.zeros((0, d))))
             ctx.fail("labeller_accepted_input_of_the_wrong_size", cls=name, mech="%s:%s" % (kind, "smaller" if M < N else "larger"), given=M, expected=N)
         except LabellingError:
             pass
